@@ -43,10 +43,10 @@ class C01(Prop):
             mx = 8 if tier == "quick" else rng.choice([4, 8, 14])
             c = gen.gen_dag_program(rng, max_nodes=mx, depth=rng.choice([0, 0, 1, 2]))
             for runner in ("sync", "async"):
-                yield {"program": c["program"], "values": c["values"], "runner": runner}
+                yield {"program": c["program"], "values": c["values"], "runner": runner, "late_renames": rng.random() < 0.5}
 
     def impl(self, case: dict) -> Any:
-        return impl.run_case(case["program"], None, case["values"], {}, case["runner"])
+        return impl.run_case(case["program"], None, case["values"], {}, case["runner"], late_renames=case.get("late_renames", False))
 
     def model(self, case: dict, driver: Any) -> Any:
         return impl.model_obs(driver.ask({"op": "run", "program": case["program"], "values": case["values"], "runner": case["runner"]}))
